@@ -352,9 +352,14 @@ func (c *fctx) stmt(o *out, ind int, s ast.Stmt) {
 				return
 			}
 		}
+		if se, ok := t.Call.Fun.(*ast.SelectorExpr); ok && se.Sel.Name == "Close" && c.x.kindOf(c.typeOf(se.X)) == kSock {
+			return // defer s.Close(): resource discipline (C19, facts + fault enumeration), not behaviour of this layer
+		}
 		if !isIgnorable(calleeFunc(c.info, t.Call)) {
 			bad("defer at %s", c.site(s.Pos()))
 		}
+	case *ast.SelectStmt:
+		c.selectStmt(o, ind, t)
 	case *ast.GoStmt:
 		c.goStmt(o, ind, t)
 	case *ast.ExprStmt:
@@ -555,6 +560,14 @@ func (c *fctx) ret(o *out, ind int, t *ast.ReturnStmt) {
 		for i := 0; i < res.Len(); i++ {
 			vals = append(vals, c.varName(res.At(i)))
 		}
+	} else if call, ok := t.Results[0].(*ast.CallExpr); ok && len(t.Results) == 1 && res.Len() > 1 && c.envMulti(call) {
+		op, _ := effectOf(calleeFunc(c.info, call))
+		s, r := c.effectCall(op, calleeFunc(c.info, call), call)
+		tmp := c.fresh("__e")
+		o.emit(ind, "let %s := %s", tmp, s)
+		for i := 0; i < r.Len(); i++ {
+			vals = append(vals, proj(tmp, i, r.Len()))
+		}
 	} else if call, ok := t.Results[0].(*ast.CallExpr); ok && len(t.Results) == 1 && (c.mutCall(call) || c.multiCall(call)) {
 		c.lastCallRes = nil
 		c.callStmt(o, ind, call, nil, false)
@@ -603,6 +616,59 @@ func (c *fctx) mutCall(call *ast.CallExpr) bool {
 	}
 	ci := c.x.funcs[f]
 	return ci != nil && len(ci.mutParams) > 0
+}
+
+// envMulti: a call of an environment operation with several results.
+func (c *fctx) envMulti(call *ast.CallExpr) bool {
+	f := calleeFunc(c.info, call)
+	if f == nil {
+		return false
+	}
+	if _, ok := effectOf(f); !ok {
+		return false
+	}
+	return f.Type().(*types.Signature).Results().Len() > 1
+}
+
+// selectStmt: the one shape the code uses — wait for a timer or for the context, whichever comes first:
+//	select { case <-time.After(d): A...; case <-ctx.Done(): B... }
+// The environment says which one fired (`SelectAfter d` = true: the timer).
+func (c *fctx) selectStmt(o *out, ind int, t *ast.SelectStmt) {
+	var timer, done *ast.CommClause
+	var delay ast.Expr
+	for _, cl := range t.Body.List {
+		cc := cl.(*ast.CommClause)
+		es, ok := cc.Comm.(*ast.ExprStmt)
+		if !ok {
+			bad("select at %s", c.site(t.Pos()))
+		}
+		u, ok := es.X.(*ast.UnaryExpr)
+		if !ok || u.Op != token.ARROW {
+			bad("select at %s", c.site(t.Pos()))
+		}
+		call, ok := u.X.(*ast.CallExpr)
+		if !ok {
+			bad("select at %s", c.site(t.Pos()))
+		}
+		f := calleeFunc(c.info, call)
+		switch {
+		case f != nil && f.FullName() == "time.After":
+			timer, delay = cc, call.Args[0]
+		case f != nil && f.FullName() == "(context.Context).Done":
+			done = cc
+		default:
+			bad("select at %s", c.site(t.Pos()))
+		}
+	}
+	if timer == nil || done == nil || len(t.Body.List) != 2 {
+		bad("select at %s", c.site(t.Pos()))
+	}
+	name := c.x.envUse(c.envName(), "SelectAfter", []string{"Int"}, "Bool")
+	c.fi.effectful = true
+	o.emit(ind, "if (← %s %s) then", name, c.expr(delay))
+	c.branch(o, ind+1, timer.Body)
+	o.emit(ind, "else")
+	c.branch(o, ind+1, done.Body)
 }
 
 // multiCall: a call of a translated function with several results (`return f(x)` forwarding them).
